@@ -118,8 +118,95 @@ def _gen_graph(rng, gtype):
     return {"n": n, "edges": es}
 
 
+def _gen_dot(rng, directed):
+    """A dot text from a small grammar whose meaning is known: node and edge
+    statements, some of them inside (nested, anonymous, cluster) subgraphs;
+    the graph denoted is the union of everything mentioned."""
+    ids = rng.sample([1, 2, 3, 4, 5, 7, 10, 11, 12], rng.randint(1, 6))
+
+    def stmts(depth):
+        out = []
+        for _ in range(rng.randint(0, 4)):
+            r = rng.random()
+            if r < 0.35:
+                out.append(["node", rng.choice(ids)])
+            elif r < 0.8 or depth >= 2:
+                a, b = rng.choice(ids), rng.choice(ids)
+                if a != b:
+                    out.append(["edge", a, b])
+            else:
+                out.append(["sub", rng.choice(["subgraph s%d" % depth,
+                                               "subgraph cluster_%d" % depth,
+                                               "", "subgraph"]),
+                            stmts(depth + 1)])
+        return out
+
+    return {"directed": directed, "stmts": stmts(0),
+            "strict": rng.random() < 0.5}
+
+
+def _dot_text(d):
+    arrow = " -> " if d["directed"] else " -- "
+
+    def render(st, ind):
+        lines = []
+        for x in st:
+            if x[0] == "node":
+                lines.append("%s%d;" % (ind, x[1]))
+            elif x[0] == "edge":
+                lines.append("%s%d%s%d;" % (ind, x[1], arrow, x[2]))
+            else:
+                lines.append("%s%s {" % (ind, x[1]))
+                lines += render(x[2], ind + "  ")
+                lines.append("%s}" % ind)
+        return lines
+
+    head = ("strict " if d["strict"] else "") + (
+        "digraph" if d["directed"] else "graph")
+    return "\n".join([head + " G {"] + render(d["stmts"], "  ") + ["}"]) + \
+        "\n"
+
+
+def _dot_reference(d, gtype):
+    nodes, edges = set(), set()
+
+    def walk(st):
+        for x in st:
+            if x[0] == "node":
+                nodes.add(x[1])
+            elif x[0] == "edge":
+                nodes.update(x[1:3])
+                edges.add((x[1], x[2]))
+            else:
+                walk(x[2])
+
+    walk(d["stmts"])
+    rank = {v: i for i, v in enumerate(sorted(nodes), start=1)}
+    if d["directed"]:
+        ref = RefDirected(len(nodes))
+        for a, b in edges:
+            ref.add(rank[a], rank[b])
+        if gtype == "dag" and not ref.is_dag():
+            return graphref.Invalid("not topologically ordered")
+    else:
+        if len(set(frozenset(e) for e in edges)) != len(edges):
+            return graphref.Gray("the same edge written in both directions")
+        ref = RefSimple(len(nodes))
+        for a, b in edges:
+            ref.add(rank[a], rank[b])
+    v = graphref.Valid(ref)
+    v.may_refuse = any(x[0] == "sub" for x in d["stmts"])
+    return v
+
+
 def generate(rng, config):
     gtype = rng.choice(["simple", "digraph", "dag", "bipartite"])
+    if config == "text" and rng.random() < 0.15:
+        gtype = rng.choice(["simple", "digraph", "dag"])
+        d = _gen_dot(rng, gtype != "simple")
+        return {"type": gtype, "format": "dot", "dot": d,
+                "text": _dot_text(d), "load": _gen_load(rng, "dot"),
+                "faults": []}
     if config == "text":
         fmt = rng.choice(["kthlist", "kthlist", "dimacs", "matrix"])
         if fmt == "matrix":
@@ -353,7 +440,9 @@ def _hops(G, ref, case, fs, ctx, gtype, where):
         ctx.probe("graph converted between formats after reading")
 
 
-def _reference(data, fmt, gtype):
+def _reference(data, fmt, gtype, case=None):
+    if fmt == "dot" and case is not None and "dot" in case:
+        return _dot_reference(case["dot"], gtype)
     try:
         text = data.decode("utf-8")
     except UnicodeDecodeError:
@@ -367,7 +456,7 @@ def _reference(data, fmt, gtype):
     return None
 
 
-def _judge(data, res, ctx, fmt, gtype, where, eio=False):
+def _judge(data, res, ctx, fmt, gtype, where, eio=False, case=None):
     def bad(clause, detail):
         raise Violation("C14/%s/%s/%s" % (clause, fmt, gtype),
                         "%s\n%s\nstored=%r" % (where, detail, data[:500]))
@@ -384,7 +473,7 @@ def _judge(data, res, ctx, fmt, gtype, where, eio=False):
             bad("graph-despite-device-error", "a graph came back although "
                 "the device raised EIO")
         return
-    ref = _reference(data, fmt, gtype)
+    ref = _reference(data, fmt, gtype, case)
     if ref is None:
         # gml / dot: exception contract only (+ sanity of a returned graph)
         if res[0] == "ok":
@@ -409,6 +498,11 @@ def _judge(data, res, ctx, fmt, gtype, where, eio=False):
                           list(G.edges())[:12]))
         return
     ctx.probe("reference: valid")
+    if res[0] == "exc" and getattr(ref, "may_refuse", False):
+        # dot with subgraphs: "a graph consistent with the text or
+        # ValueError" - the reader may decline what it does not support
+        ctx.probe("dot text with subgraphs declined")
+        return
     if res[0] == "exc":
         bad("valid-text-rejected", "reference reader accepts %r but %r was "
             "raised" % (ref.graph.state(), res[1]))
@@ -432,8 +526,8 @@ def execute(case, ctx):
             ctx.shape = (case["text"], fmt, gtype)
             ctx.nontrivial = len(data) > 6
             _judge(data, res, ctx, fmt, gtype, "assembled text load=%r" %
-                   (ld,))
-            rr = _reference(data, fmt, gtype)
+                   (ld,), case=case)
+            rr = _reference(data, fmt, gtype, case)
             if isinstance(rr, graphref.Valid) and res[0] == "ok":
                 _hops(res[1], rr.graph, case, fs, ctx, gtype,
                       "assembled text %r load=%r" % (case["text"], ld))
